@@ -112,8 +112,10 @@ def goalObjectiveGen (sbs isPath : Bool) (T : Nat) (val : C03.Val) (symIndex : N
     (override : C03.Goal × Nat → Option C03.Closure)
     (gjLate : C03.Goal × Nat) (epsLate : C03.EpsSym) (nLate : Nat → Rat) (mLate : Nat) (gj : C03.Goal × Nat) : Option C03.Closure :=
   if (!gj.1.critical) then
-    some (if gj.1.hasBounds then objFuncTargetGen val isPath gj gjLate (epsSymGen isPath symIndex gj.2 gj.1) epsLate (nActiveTargetGen sbs isPath T gj.1) nLate mLate
-        else objFuncMinGen val isPath gj gjLate epsLate epsLate (nActiveMinGen sbs isPath T gj.1) nLate mLate)
+    some (match override gj with
+      | some f => f
+      | none => (if gj.1.hasBounds then objFuncTargetGen val isPath gj gjLate (epsSymGen isPath symIndex gj.2 gj.1) epsLate (nActiveTargetGen sbs isPath T gj.1) nLate mLate
+        else objFuncMinGen val isPath gj gjLate epsLate epsLate (nActiveMinGen sbs isPath T gj.1) nLate mLate))
   else none
 
 /-- the list `objectives` (element 1 of the returned tuple) -/
